@@ -243,9 +243,6 @@ static void case_script(int kind)
         if (act < 4 && wacc && !(kind != 1 && have_read)) { /* write */
             int w = pick_width(); uint32_t v = pick_value();
             if (multiblock && hk_chance(85)) w = 32;
-            /* after a read->write switch (known defect bits-r2w-*) the bit count can be 0 and a 32-bit write evaluates
-               `data >> 32` (undefined behaviour, not modelable; the shift sanitizer is off in this build): stay below 32 */
-            if (kind == 1 && have_read && w == 32) w = 31;
             if (cur + w > 8 * lim) continue;
             int r = Hbitwrite(bid, w, v);
             sb_printf("%sw%d:%u", first ? "" : ",", w, (unsigned)v); first = 0;
@@ -277,7 +274,6 @@ static void case_script(int kind)
             long tb = hk_chance(20) ? 0 : hk_range(0, nb);
             int bo = hk_chance(50) ? 0 : (int)hk_range(0, 7);
             if (tb * 8 + bo > def) bo = 0;
-            if (multiblock && tb == nb && !(wacc && !have_read && cur / 8 / 4096 == tb / 4096)) continue; /* seek to the very end of another block: see probe D3 */
             int r = Hbitseek(bid, (int32)tb, bo);
             sb_printf("%ss%ld:%d", first ? "" : ",", tb, bo); first = 0;
             if (r == FAIL) { rl += (size_t)sprintf(res + rl, "%ssfail", rl ? "," : ""); hk_fail(ko, "Hbitseek(%ld,%d) FAIL def %ld cur %ld", tb, bo, def, cur); }
@@ -441,7 +437,8 @@ static void case_nbit(int k)
         if (i < outn) hk_fail(growing ? "nbit-read-partition" : "nbit-read-data",
                               "cfg(%s) %d values, reads %s: byte %d is %02x, projection says %02x", cfg, nvals, ll < 60 ? lens : "(long)", i, got[i], want[i]);
     }
-    if (!growing) { /* a growing read size returns uninitialised buffer bytes in C (finding nbit-read-partition): not comparable */
+    { /* every partition is compared with the model (before the repair of nbit-read-partition a growing read size returned
+         uninitialised buffer bytes) */
         sb_reset(); sb_printf("T nbit dec %s ", cfg); sb_hex(raw, (size_t)g); sb_printf(" %s => ", ll ? lens : "-"); sb_hex(got, (size_t)outn); sb_flush();
     }
     if (mode <= 5) {
@@ -590,8 +587,9 @@ static void case_skphuff(void)
     Hclose(fid);
 }
 
-/* ------------------------------------------------------------------ (D) probes of isolated defects (each its own key)
- * They are deliberately rare and tiny; every one is a documented finding with a stand-alone C reproduction in REPORT.md. */
+/* ------------------------------------------------------------------ (D) regression probes of repaired defects (each its own key)
+ * bits-read-past-end, skp-prefix-rewrite, sanitizer:heap-buffer-overflow:Hbitwrite / bits-seek-end-append: all `fixed` in
+ * known_findings.json (reproductions under repro/bits); if one of them returns the probe reports it as a violation. */
 static void case_probe(void)
 {
     const char *path;
